@@ -529,3 +529,12 @@ Proof.
   unfold from_poly_res. destruct (negb _); try discriminate. destruct (Nat.eqb _ 0); try discriminate.
   destruct (match g with Some g' => _ | None => false end); try discriminate. intros H; inversion H; reflexivity.
 Qed.
+
+(* the pipeline as a user writes it: from_slice(r), compose(t), remove_axes(free axes of r) *)
+Theorem eval_slice_pipeline r t t' y : wf (length r) t -> length y = count_true (map sc_isfree r) ->
+  remove_axes (length r) (map sc_isfree r) (compose (from_slice r) t) = SOk t' ->
+  eval t' y = eval t (embed r y).
+Proof.
+  intros Hw Hy H. rewrite remove_axes_total in H by (rewrite map_length; reflexivity).
+  inversion H; subst. apply eval_slice_tree; auto.
+Qed.
